@@ -126,7 +126,13 @@ def fromString (version : List Char) : Except PErr Raw :=
 (`debian.Version.is_valid`), `build_value` (`debian.Version.from_string`). -/
 def construct (s : List Char) : Except PErr Raw :=
   let n := normalize s
-  if !isValid n then .error .invalid else fromString n
+  if !isValid n then .error .invalid
+  else
+    -- FIXED CODE: `DebianVersion.is_valid` also builds the value and answers False when that
+    -- raises ValueError (an epoch with more than 4300 digits)
+    match fromString n with
+    | .ok r => .ok r
+    | .error _ => .error .invalid
 
 /-! ### `debian.Version.__str__` -/
 
@@ -146,10 +152,12 @@ def natDigitsAux : Nat → Nat → List Char → List Char
 def natDigits (n : Nat) : List Char := natDigitsAux (n + 1) n []
 
 /-- `debian.Version.__str__` (`Version.__str__` is `str(self.value)`).
-`if self.epoch` is "epoch ≠ 0"; `revision not in (None, "0")`. -/
+`if self.epoch` is "epoch ≠ 0";
+`if self.revision not in (None, "0") or "-" in (self.upstream or "")`: a `0` revision is
+printed when the upstream contains a hyphen. -/
 def str (r : Raw) : List Char :=
   let version := if r.epoch != 0 then natDigits r.epoch ++ ':' :: r.upstream else r.upstream
-  if r.revision != ['0'] then version ++ '-' :: r.revision else version
+  if r.revision != ['0'] || r.upstream.contains '-' then version ++ '-' :: r.revision else version
 
 /-! ### `characters_order`, `get_non_digit_prefix`, `get_digit_prefix`, `compare_strings` -/
 
@@ -334,9 +342,13 @@ theorem getNonDigitPrefix_head {s : List Char} {c : Char} {cs : List Char}
     · simp only [List.cons.injEq] at h; rw [← h.1]; assumption
     · exact ih h
 
-/-- `[int(digits) for digits in re.findall(r"[0-9]+", string)]`: skip the non-digits, read
-the maximal run of digits as a number, go on with what follows.
-(`int` of a run of more than 4300 digits raises `ValueError`: see `hashRaises`.) -/
+/-- `[digits.lstrip("0") for digits in re.findall(r"[0-9]+", string)]`: skip the non-digits,
+read the maximal run of digits, go on with what follows.  The Python keeps each run as TEXT
+without its leading zeros (no `int()`, so nothing can raise); the model keeps the NUMBER the
+run denotes.  Texts of digits without leading zeros and natural numbers correspond one to
+one (`""` ↔ 0), so two lists of such texts are equal iff the lists of numbers are, and
+"drop the trailing empty texts" is "drop the trailing zeros": equal `hashKey`s ⇔ equal
+Python hash keys. -/
 def findNumbers (s : List Char) : List Nat :=
   match _hs : (getNonDigitPrefix s).2 with
   | [] => []
@@ -351,7 +363,7 @@ decreasing_by
   simp only [List.length_cons] at h1
   omega
 
-/-- `while numbers and not numbers[-1]: numbers.pop()` -/
+/-- `while numbers and not numbers[-1]: numbers.pop()` (an empty text is falsy, like 0) -/
 def dropTrailingZeros : List Nat → List Nat
   | [] => []
   | x :: xs => if dropTrailingZeros xs = [] ∧ x = 0 then [] else x :: dropTrailingZeros xs
@@ -363,17 +375,6 @@ def getSignificantNumbers (s : List Char) : List Nat := dropTrailingZeros (findN
 `hash((epoch, get_significant_numbers(upstream), get_significant_numbers(revision)))` -/
 def hashKey (r : Raw) : Nat × List Nat × List Nat :=
   (r.epoch, getSignificantNumbers r.upstream, getSignificantNumbers r.revision)
-
-/-- the longest run of digits in a string -/
-def maxDigitRun (best cur : Nat) : List Char → Nat
-  | [] => max best cur
-  | c :: cs => if c.isDigit then maxDigitRun best (cur + 1) cs else maxDigitRun (max best cur) 0 cs
-
-/-- `hash(version)` raises `ValueError` instead of returning: `get_significant_numbers` calls
-`int()` on every run of digits, and CPython refuses more than 4300 digits (a version such as
-`"1" * 5000` is valid and comparable, but not hashable).  Not visible in `hashKey`. -/
-def hashRaises (r : Raw) : Bool :=
-  maxDigitRun 0 0 r.upstream > 4300 || maxDigitRun 0 0 r.revision > 4300
 
 /-! ### what `construct` establishes -/
 
